@@ -62,11 +62,14 @@ type result struct {
 
 func run(args ...string) result { return runIn("", args...) }
 
+// extraEnv is added to the environment of every command started by runIn (progress settings of the stdout families)
+var extraEnv []string
+
 // runIn runs the binary with the working directory cwd ("" = the driver's)
 func runIn(cwd string, args ...string) result {
 	cmd := exec.Command(binary, args...)
 	cmd.Dir = cwd
-	cmd.Env = append(os.Environ(), "HOME=/nonexistent")
+	cmd.Env = append(append(os.Environ(), "HOME=/nonexistent"), extraEnv...)
 	var so, se bytes.Buffer
 	cmd.Stdout, cmd.Stderr = &so, &se
 	must(cmd.Start())
@@ -259,7 +262,38 @@ func runFault(r *rand.Rand, dir string, thorough bool) {
 		mi, err := desync.IndexFromReader(f)
 		return err == nil && (wantLen < 0 || mi.Length() == wantLen) && mi.Length() > 0 && storeHasAll(srvStore, mi)
 	}
+	// chop --ignore / --ignore-chunks: every second distinct chunk of the blob is listed as already present elsewhere
+	ignIdx := desync.Index{Index: idx.Index}
+	rest := desync.Index{Index: idx.Index}
+	ignText := "\n"
+	{
+		seen := map[desync.ChunkID]bool{}
+		var pos uint64
+		for _, c := range idx.Chunks {
+			if seen[c.ID] {
+				continue
+			}
+			seen[c.ID] = true
+			if len(seen)%2 == 0 {
+				ignIdx.Chunks = append(ignIdx.Chunks, desync.IndexChunk{ID: c.ID, Start: pos, Size: c.Size})
+				pos += c.Size
+				ignText += "  " + c.ID.String() + " \n\n"
+			} else {
+				rest.Chunks = append(rest.Chunks, c)
+			}
+		}
+	}
+	ignFile, ignTextFile := filepath.Join(dir, "ignore.caibx"), filepath.Join(dir, "ignore.txt")
+	writeIndex(ignIdx, ignFile)
+	must(os.WriteFile(ignTextFile, []byte(ignText), 0644))
 	defs := []def{
+		{"chop-ignore", true, func(url, work string) []string {
+			return []string{"chop", "-n", "3", "-s", url, "--ignore", ignFile, idxFile, blobFile}
+		},
+			func(_, srvStore string) bool { return storeHasAll(srvStore, rest) }},
+		{"chop-ignore-chunks", true, func(url, work string) []string {
+			return []string{"chop", "-n", "2", "-s", url, "--ignore-chunks", ignTextFile, idxFile, blobFile}
+		}, func(_, srvStore string) bool { return storeHasAll(srvStore, rest) }},
 		{"chop", true, func(url, work string) []string { return []string{"chop", "-n", "3", "-s", url, idxFile, blobFile} },
 			func(_, srvStore string) bool { return storeHasAll(srvStore, idx) }},
 		{"make", true, func(url, work string) []string {
@@ -302,6 +336,65 @@ func runFault(r *rand.Rand, dir string, thorough bool) {
 			stop()
 			w.Emit(J{"ev": "cli", "fam": "fault", "cmd": d.name, "k": k, "injected": fs.hits > 0, "requests": fs.n, "exit": res.exit, "hung": res.hung,
 				"complete": d.complete(work, srvStore), "valid_inputs": fs.hits == 0, "out": res.last})
+		}
+	}
+}
+
+// a source store in which one chunk file holds something else (another chunk's object, an uncompressed store's damaged file):
+// copying commands either fail or leave a target in which every chunk of the index reads back valid
+func runCorruptSource(r *rand.Rand, dir string) {
+	secs := map[string][]byte{}
+	blob := mkBlob(r, secs, "a b c d")
+	for k, damage := range []string{"other chunk", "truncated"} {
+		for _, uncompressed := range []bool{false, true} {
+			src := mkdir(filepath.Join(dir, "src"))
+			opt := desync.StoreOptions{Uncompressed: uncompressed}
+			st, err := desync.NewLocalStore(src, opt)
+			must(err)
+			ck, err := desync.NewChunker(bytes.NewReader(blob), 1024, 4096, 16384)
+			must(err)
+			idx, err := desync.ChunkStream(context.Background(), ck, st, 2)
+			must(err)
+			idxFile := filepath.Join(dir, "blob.caibx")
+			writeIndex(idx, idxFile)
+			ext := ".cacnk"
+			if uncompressed {
+				ext = ""
+			}
+			file := func(id desync.ChunkID) string { s := id.String(); return filepath.Join(src, s[:4], s+ext) }
+			victim := idx.Chunks[len(idx.Chunks)/2].ID
+			other := idx.Chunks[0].ID
+			if other == victim {
+				other = idx.Chunks[len(idx.Chunks)-1].ID
+			}
+			b, err := os.ReadFile(file(other))
+			must(err)
+			if damage == "truncated" {
+				b, err = os.ReadFile(file(victim))
+				must(err)
+				b = b[:len(b)/2]
+			}
+			must(os.WriteFile(file(victim), b, 0644))
+			cfg := filepath.Join(dir, "config.json")
+			must(os.WriteFile(cfg, []byte(fmt.Sprintf(`{"store-options": {%q: {"uncompressed": %v}}}`, src, uncompressed)), 0644))
+			for _, via := range []string{"local", "http"} {
+				target := mkdir(filepath.Join(dir, "target"))
+				source := src
+				stop := func() {}
+				if via == "http" {
+					ss, err := desync.NewLocalStore(src, desync.StoreOptions{Uncompressed: uncompressed, SkipVerify: true})
+					must(err)
+					conv := desync.Converters{desync.Compressor{}}
+					if uncompressed {
+						conv = nil
+					}
+					source, stop = serve(desync.NewHTTPHandler(ss, false, true, conv, ""))
+				}
+				res := run("--config", cfg, "cache", "-n", "2", "-s", source, "-c", target, idxFile)
+				stop()
+				w.Emit(J{"ev": "cli", "fam": "fault", "cmd": "cache from a " + via + " source in which one chunk file holds " + damage + " (uncompressed: " + fmt.Sprint(uncompressed) + ")", "k": k,
+					"exit": res.exit, "hung": res.hung, "complete": storeHasAll(target, idx), "valid_inputs": false, "out": res.last})
+			}
 		}
 	}
 }
@@ -383,6 +476,39 @@ func runChain(r *rand.Rand, dir string) {
 	emit("failover down|down|local", true, []string{"-s", uf + "|" + uf + "|" + full}, nil)
 	emit("failover inside a router", true, []string{"-s", uf + "|" + ua, "-s", ub}, nil)
 	emit("failover all down", false, []string{"-s", uf + "|" + uf}, nil)
+	// other ways of being unhealthy: a member that refuses every request (403), a member that delivers objects that are not the
+	// chunk asked for (another chunk's object under every name). Neither is "the chunk is missing": a failover group moves on
+	for _, kind := range []string{"refusing (403)", "unauthorized (401)", "serving wrong objects"} {
+		var ux string
+		var sx func()
+		switch kind {
+		case "refusing (403)":
+			ux, sx = serve(http.HandlerFunc(func(w http.ResponseWriter, r *http.Request) { http.Error(w, "forbidden", http.StatusForbidden) }))
+		case "unauthorized (401)":
+			ux, sx = serve(http.HandlerFunc(func(w http.ResponseWriter, r *http.Request) { http.Error(w, "unauthorized", http.StatusUnauthorized) }))
+		default:
+			o := idx.Chunks[0].ID.String()
+			wrong, err := os.ReadFile(filepath.Join(full, o[:4], o+".cacnk"))
+			must(err)
+			ux, sx = serve(http.HandlerFunc(func(w http.ResponseWriter, r *http.Request) { w.Write(wrong) }))
+		}
+		emit("failover "+kind+"|up", true, []string{"-s", ux + "|" + uFull}, nil)
+		emit("failover up|"+kind, true, []string{"-s", uFull + "|" + ux}, nil)
+		emit("failover "+kind+"|"+kind+"|local", true, []string{"-s", ux + "|" + ux + "|" + full}, nil)
+		sx()
+	}
+	// a local member with a damaged chunk file in a failover group
+	{
+		dmg := mkdir(filepath.Join(dir, "damagedcopy"))
+		dst, _ := desync.NewLocalStore(dmg, desync.StoreOptions{})
+		for _, c := range idx.Chunks {
+			ch, _ := fst.GetChunk(c.ID)
+			dst.StoreChunk(ch)
+		}
+		damage(dmg)
+		emit("failover damaged-local|up", true, []string{"-s", dmg + "|" + uFull}, nil)
+		emit("failover damaged-local|local", true, []string{"-s", dmg + "|" + full}, nil)
+	}
 	// cache: filled on the way, then sufficient on its own
 	cacheDir := mkdir(filepath.Join(dir, "cache"))
 	// (chunks of zeros are written without asking any store, they need not be in the cache)
@@ -536,6 +662,43 @@ func runServer(r *rand.Rand, dir string) {
 		w.Emit(J{"ev": "cli", "fam": "server", "cmd": fmt.Sprintf("chunk-server --store-file: the same after %d reload(s) (SIGHUP)", round), "k": m2, "exit": 0, "hung": false, "complete": ok2 && m2 == 1, "valid_inputs": true,
 			"out": fmt.Sprintf("max upstream requests in flight for the chunk: %d", m2)})
 	}
+	// requests that straddle a reload: one is upstream when SIGHUP arrives, more follow while it is still running
+	if len(idx.Chunks) > 3 {
+		c := idx.Chunks[3]
+		p := "/" + c.ID.String()[:4] + "/" + c.ID.String() + ".cacnk"
+		get := func(ok *bool, wg *sync.WaitGroup) {
+			defer wg.Done()
+			resp, err := http.Get("http://" + addr + p)
+			if err != nil {
+				return
+			}
+			b, _ := io.ReadAll(resp.Body)
+			resp.Body.Close()
+			d, derr := desync.Decompress(nil, b)
+			*ok = resp.StatusCode == 200 && derr == nil && bytes.Equal(d, blob[c.Start:c.Start+c.Size])
+		}
+		var wg sync.WaitGroup
+		oks := make([]bool, 4)
+		wg.Add(1)
+		go get(&oks[0], &wg)
+		time.Sleep(60 * time.Millisecond) // the first request is upstream now (the upstream takes 200 ms)
+		cmd.Process.Signal(syscall.SIGHUP)
+		time.Sleep(40 * time.Millisecond)
+		for i := 1; i < len(oks); i++ {
+			wg.Add(1)
+			go get(&oks[i], &wg)
+		}
+		wg.Wait()
+		all := true
+		for _, o := range oks {
+			all = all && o
+		}
+		mu.Lock()
+		m := maxInflight[p]
+		mu.Unlock()
+		w.Emit(J{"ev": "cli", "fam": "server", "cmd": "chunk-server --store-file: requests for one chunk that straddle a reload (SIGHUP while the first is upstream)", "k": m, "exit": 0, "hung": false,
+			"complete": all && m == 1, "valid_inputs": true, "out": fmt.Sprintf("max upstream requests in flight for the chunk: %d", m)})
+	}
 }
 
 // a chunk server in front of a casync-protocol (ssh) store with a single session: concurrent requests for different chunks of
@@ -654,6 +817,30 @@ func runSSH(r *rand.Rand, dir string) {
 		}
 		w.Emit(J{"ev": "cli", "fam": "ssh", "cmd": "cat from an ssh store whose server dies " + strings.Join(a, " "), "k": 0, "exit": res.exit, "hung": res.hung, "complete": bytes.Equal(res.stdout, want),
 			"valid_inputs": false, "out": res.last})
+	}
+	// the serving side's configuration marks the store as uncompressed: `desync pull` serves its plain chunk files (and only those)
+	{
+		unc := mkdir(filepath.Join(dir, "uncompressed"))
+		ust, err := desync.NewLocalStore(unc, desync.StoreOptions{Uncompressed: true})
+		must(err)
+		for _, c := range idx.Chunks {
+			ch, err := fst.GetChunk(c.ID)
+			must(err)
+			must(ust.StoreChunk(ch))
+		}
+		home := mkdir(filepath.Join(dir, "home"))
+		must(os.MkdirAll(filepath.Join(home, ".config", "desync"), 0755))
+		must(os.WriteFile(filepath.Join(home, ".config", "desync", "config.json"), []byte(fmt.Sprintf(`{"store-options": {%q: {"uncompressed": true}}}`, unc)), 0644))
+		extraEnv = []string{"HOME=" + home}
+		emit("extract from an ssh store that the serving side's config marks uncompressed", true, "extract", "-n", "2", "-s", "ssh://localhost"+unc)
+		// a compressed file of one chunk in that store is not this store's chunk: it stays invisible
+		victim := idx.Chunks[3].ID.String()
+		b, err := os.ReadFile(filepath.Join(full, victim[:4], victim+".cacnk"))
+		must(err)
+		must(os.Remove(filepath.Join(unc, victim[:4], victim)))
+		must(os.WriteFile(filepath.Join(unc, victim[:4], victim+".cacnk"), b, 0644))
+		emit("extract from an uncompressed ssh store in which one chunk exists only as a compressed file", false, "extract", "-n", "2", "-s", "ssh://localhost"+unc)
+		extraEnv = nil
 	}
 	res := run("cat", "-n", "2", "-s", "ssh://localhost"+full, idxFile)
 	w.Emit(J{"ev": "cli", "fam": "ssh", "cmd": "cat from an ssh store", "k": 0, "exit": res.exit, "hung": res.hung, "complete": bytes.Equal(res.stdout, blob), "valid_inputs": true, "out": res.last})
@@ -955,6 +1142,30 @@ func runExtract(r *rand.Rand, dir string, n int) {
 		// the missing chunk may still be obtainable from a seed or from the prior content; success is only promised without it
 		w.Emit(J{"ev": "cli", "fam": "extract", "cmd": "extract", "seedmode": seedMode, "stale": stale, "invalid": invalid, "missing": missing, "prior": prior, "inplace": inplace,
 			"exit": res.exit, "hung": res.hung, "complete": bytes.Equal(got, target), "valid_inputs": !missing && (!stale || invalid != "bail"), "out": res.last, "k": i})
+		// the index that is being extracted lies in the seed directory itself, next to a file of its name that holds an older
+		// version (an image directory updated in place): it is not a seed for itself, however the two paths are spelled
+		if i%6 == 0 && !missing {
+			d2 := mkdir(filepath.Join(sc, "images"))
+			writeIndex(idx, filepath.Join(d2, "v2.caibx"))
+			must(os.WriteFile(filepath.Join(d2, "v2"), older, 0644))
+			must(os.WriteFile(filepath.Join(d2, "v1"), older, 0644))
+			writeIndex(chunkInto(seedStore, older), filepath.Join(d2, "v1.caibx"))
+			for _, sp := range [][2]string{{d2, filepath.Join(d2, "v2.caibx")}, {d2, "images/v2.caibx"}, {"images", filepath.Join(d2, "v2.caibx")}, {"./images/", "images/../images/v2.caibx"}} {
+				for _, k := range []bool{false, true} {
+					out2 := filepath.Join(sc, "out2")
+					os.Remove(out2)
+					a := []string{"extract", "-s", store, "--seed-dir", sp[0]}
+					if k {
+						a = append(a, "-k")
+						must(os.WriteFile(out2, older, 0644))
+					}
+					res := runIn(sc, append(a, sp[1], out2)...)
+					got, _ := os.ReadFile(out2)
+					w.Emit(J{"ev": "cli", "fam": "extract", "cmd": "extract --seed-dir " + sp[0][max(0, len(sp[0])-12):] + " " + sp[1][max(0, len(sp[1])-26):] + " (the index lies in the seed directory)", "inplace": k,
+						"exit": res.exit, "hung": res.hung, "complete": bytes.Equal(got, target), "valid_inputs": true, "out": res.last, "k": i})
+				}
+			}
+		}
 	}
 }
 
@@ -987,6 +1198,49 @@ func runCat(r *rand.Rand, dir string, n int) {
 		res := run(append(args, idxFile)...)
 		w.Emit(J{"ev": "cli", "fam": "cat", "cmd": "cat", "k": i, "off": off, "len": ln, "exit": res.exit, "hung": res.hung, "complete": bytes.Equal(res.stdout, want),
 			"valid_inputs": valid, "out": res.last})
+		// the same request into an output file
+		if i%2 == 0 {
+			of := filepath.Join(dir, "cat.out")
+			os.Remove(of)
+			res := run(append(args, idxFile, of)...)
+			got, _ := os.ReadFile(of)
+			w.Emit(J{"ev": "cli", "fam": "cat", "cmd": "cat to a file", "k": i, "off": off, "len": ln, "exit": res.exit, "hung": res.hung, "complete": bytes.Equal(got, want),
+				"valid_inputs": valid, "out": res.last})
+		}
+	}
+	// a store that lacks one chunk, or holds a damaged one: the command fails, whether it writes to standard output or to a file
+	idx := chunkInto(store, blob)
+	for k, damage := range []string{"missing", "garbage", "other chunk"} {
+		bad := mkdir(filepath.Join(dir, "badstore"))
+		chunkInto(bad, blob)
+		victim := idx.Chunks[len(idx.Chunks)/2].ID.String()
+		vp := filepath.Join(bad, victim[:4], victim+".cacnk")
+		switch damage {
+		case "missing":
+			os.Remove(vp)
+		case "garbage":
+			must(os.WriteFile(vp, []byte("this is not a compressed chunk"), 0644))
+		case "other chunk":
+			o := idx.Chunks[0].ID.String()
+			b, err := os.ReadFile(filepath.Join(bad, o[:4], o+".cacnk"))
+			must(err)
+			must(os.WriteFile(vp, b, 0644))
+		}
+		for _, toFile := range []bool{false, true} {
+			args := []string{"cat", "-s", bad, idxFile}
+			of := filepath.Join(dir, "cat.out")
+			os.Remove(of)
+			if toFile {
+				args = append(args, of)
+			}
+			res := run(args...)
+			got := res.stdout
+			if toFile {
+				got, _ = os.ReadFile(of)
+			}
+			w.Emit(J{"ev": "cli", "fam": "cat", "cmd": "cat from a store with a " + damage + " chunk (to a file: " + fmt.Sprint(toFile) + ")", "k": k, "exit": res.exit, "hung": res.hung,
+				"complete": bytes.Equal(got, blob), "valid_inputs": false, "out": res.last})
+		}
 	}
 }
 
@@ -1038,6 +1292,24 @@ func runVerify(r *rand.Rand, dir string, n int) {
 		w.Emit(J{"ev": "cli", "fam": "verify", "cmd": "verify-index", "k": i, "kind": kind, "exit": res.exit, "hung": res.hung, "complete": bytes.Equal(b, blob),
 			"valid_inputs": bytes.Equal(b, blob), "out": res.last})
 	}
+	// the empty blob: its index (as `make` writes it) matches the empty file for every worker count, and nothing else
+	emptyFile, emptyIdx := filepath.Join(dir, "emptyblob"), filepath.Join(dir, "empty.caibx")
+	must(os.WriteFile(emptyFile, nil, 0644))
+	if rm := run("make", emptyIdx, emptyFile); rm.exit == 0 {
+		for k, nw := range []string{"", "1", "2", "10", "64"} {
+			for _, content := range [][]byte{nil, {0}} {
+				f := filepath.Join(dir, "candidate")
+				must(os.WriteFile(f, content, 0644))
+				args := []string{"verify-index"}
+				if nw != "" {
+					args = append(args, "-n", nw)
+				}
+				res := run(append(args, emptyIdx, f)...)
+				w.Emit(J{"ev": "cli", "fam": "verify", "cmd": "verify-index of the empty blob's index", "k": k, "kind": fmt.Sprintf("%d-byte file", len(content)), "exit": res.exit, "hung": res.hung,
+					"complete": len(content) == 0, "valid_inputs": len(content) == 0, "out": res.last})
+			}
+		}
+	}
 }
 
 func runMake(r *rand.Rand, dir string, n int) {
@@ -1074,6 +1346,26 @@ func runMake(r *rand.Rand, dir string, n int) {
 				same = same && storeHasAll(store, ridx)
 			}
 			w.Emit(J{"ev": "cli", "fam": "make", "cmd": "make", "k": i, "n": nw, "exit": res.exit, "hung": res.hung, "complete": same, "valid_inputs": true, "out": res.last, "size": len(blob)})
+		}
+		// `desync chunk [-S start]`: start / length / ID of every chunk of the file from that position on
+		for _, start := range []int{0, r.Intn(len(blob) + 1), len(blob)} {
+			args := []string{"chunk", "-m", "1:4:16"}
+			if start > 0 {
+				args = append(args, "-S", fmt.Sprint(start))
+			}
+			res := run(append(args, blobFile)...)
+			want := ""
+			if ck, err := desync.NewChunker(bytes.NewReader(blob[start:]), 1024, 4096, 16384); err == nil {
+				for {
+					pos, b, err := ck.Next()
+					if err != nil || len(b) == 0 {
+						break
+					}
+					want += fmt.Sprintf("%d\t%d\t%x\n", int(pos)+start, len(b), desync.Digest.Sum(b))
+				}
+			}
+			w.Emit(J{"ev": "cli", "fam": "make", "cmd": "chunk -S (chunk list from a start position)", "k": i, "n": start, "exit": res.exit, "hung": res.hung,
+				"complete": string(res.stdout) == want, "valid_inputs": true, "out": res.last, "size": len(blob)})
 		}
 	}
 }
@@ -1125,15 +1417,28 @@ func runTar(r *rand.Rand, dir string, n int) {
 		{
 			var tb bytes.Buffer
 			tw := tar.NewWriter(&tb)
+			var bodyEnds, padEnds []int // per member: where its body ends and where its padding ends (header = one 512-byte block)
 			for j := 0; j < 4; j++ {
 				body := make([]byte, 20000+r.Intn(20000))
 				r.Read(body)
 				tw.WriteHeader(&tar.Header{Name: fmt.Sprintf("f%d", j), Mode: 0644, Size: int64(len(body)), Typeflag: tar.TypeReg, ModTime: time.Unix(1600000000, 0)})
 				tw.Write(body)
+				tw.Flush()
+				padEnds = append(padEnds, tb.Len())
+				bodyEnds = append(bodyEnds, tb.Len()-(512-len(body)%512)%512)
 			}
 			tw.Close()
 			full := tb.Bytes()
-			for vi, data := range [][]byte{full, full[:len(full)/2+77]} {
+			cut := len(full)/2 + 77
+			// a stream that ends in the padding behind a complete member is, to a tar reader, an archive of the members so far
+			// (no end marker is required): then the command may succeed, with exactly those members
+			wholeMembers := -1
+			for j := range padEnds {
+				if cut >= bodyEnds[j] && cut <= padEnds[j] {
+					wholeMembers = j + 1
+				}
+			}
+			for vi, data := range [][]byte{full, full[:cut]} {
 				tf := filepath.Join(dir, "in.tar")
 				must(os.WriteFile(tf, data, 0644))
 				ts := mkdir(filepath.Join(dir, "tarstore"))
@@ -1141,7 +1446,11 @@ func runTar(r *rand.Rand, dir string, n int) {
 				os.Remove(ti)
 				rs := run("tar", "-i", "--input-format", "tar", "--tar-add-root", "-n", "2", "-m", "1:4:16", "-s", ts, ti, tf)
 				ok := false
-				if vi == 0 && rs.exit == 0 {
+				wantFiles := 4
+				if vi == 1 {
+					wantFiles = wholeMembers
+				}
+				if wantFiles >= 0 && rs.exit == 0 {
 					d3 := mkdir(filepath.Join(dir, "dst3"))
 					ru := run("untar", "-i", "-s", ts, "--no-same-owner", ti, d3)
 					n := 0
@@ -1151,7 +1460,7 @@ func runTar(r *rand.Rand, dir string, n int) {
 						}
 						return nil
 					})
-					ok = ru.exit == 0 && n == 4
+					ok = ru.exit == 0 && n == wantFiles
 				}
 				w.Emit(J{"ev": "cli", "fam": "tar", "cmd": []string{"tar -i from a tar stream", "tar -i from a truncated tar stream"}[vi], "k": i, "exit": rs.exit, "hung": rs.hung,
 					"complete": ok, "valid_inputs": vi == 0, "out": rs.last})
@@ -1164,6 +1473,81 @@ func runTar(r *rand.Rand, dir string, n int) {
 		res4 := run("untar", "-i", "-n", "3", "-s", store, "--no-same-owner", caidx, dst2)
 		w.Emit(J{"ev": "cli", "fam": "tar", "cmd": "tar-i+untar-i", "k": i, "exit": res3.exit + res4.exit, "hung": res3.hung || res4.hung, "complete": treeDigest(dst2) == want,
 			"valid_inputs": true, "out": res3.last + res4.last})
+	}
+}
+
+// ------------------------------------------------------------------------------------------------ stdout
+// Commands that write their product to standard output ("-"): whatever the progress settings and whatever else the
+// command has to say (warnings about skipped nodes, statistics), standard output holds exactly the product - the bytes
+// the same command writes to a file.
+func runStdout(r *rand.Rand, dir string, what string) {
+	envs := [][]string{nil, {"DESYNC_PROGRESSBAR_ENABLED=1"}, {"DESYNC_ENABLE_PARSABLE_PROGRESS=1"}}
+	secs := map[string][]byte{}
+	blob := mkBlob(r, secs, "a b Z c a")
+	blobFile := filepath.Join(dir, "blob")
+	must(os.WriteFile(blobFile, blob, 0644))
+	store := mkdir(filepath.Join(dir, "store"))
+	src := filepath.Join(dir, "src")
+	mkTree(r, src)
+	// a node tar skips with a warning
+	syscall.Mkfifo(filepath.Join(src, "zz-fifo"), 0644)
+	defer func() { extraEnv = nil }()
+	for ei, env := range envs {
+		extraEnv = env
+		emit := func(cmd string, res result, want []byte, wantOK bool) {
+			w.Emit(J{"ev": "cli", "fam": "stdout", "cmd": cmd, "k": ei, "exit": res.exit, "hung": res.hung,
+				"complete": wantOK && bytes.Equal(res.stdout, want), "valid_inputs": true, "out": res.last})
+		}
+		switch what {
+		case "index":
+			// make: index to a file, then to standard output (with and without statistics)
+			f := filepath.Join(dir, "made.caibx")
+			rf := run("make", "-n", "2", "-m", "1:4:16", "-s", store, f, blobFile)
+			want, err := os.ReadFile(f)
+			emit("make - (index on stdout)", run("make", "-n", "2", "-m", "1:4:16", "-s", store, "-", blobFile), want, rf.exit == 0 && err == nil)
+			emit("make --print-stats - (index on stdout)", run("make", "--print-stats", "-n", "2", "-m", "1:4:16", "-s", store, "-", blobFile), want, rf.exit == 0 && err == nil)
+			fi := filepath.Join(dir, "made.caidx")
+			rfi := run("tar", "-i", "-n", "2", "-m", "1:4:16", "-s", store, fi, src)
+			wanti, err := os.ReadFile(fi)
+			emit("tar -i - (index on stdout)", run("tar", "-i", "-n", "2", "-m", "1:4:16", "-s", store, "-", src), wanti, rfi.exit == 0 && err == nil)
+			// and read back from standard input
+			if err == nil {
+				c := exec.Command(binary, "list-chunks", "-")
+				c.Env = append(append(os.Environ(), "HOME=/nonexistent"), env...)
+				c.Stdin = bytes.NewReader(want)
+				outb, cerr := c.Output()
+				idx, ierr := desync.IndexFromReader(bytes.NewReader(want))
+				lines := ""
+				if ierr == nil {
+					for _, ch := range idx.Chunks {
+						lines += ch.ID.String() + "\n"
+					}
+				}
+				ex := 0
+				if cerr != nil {
+					ex = 1
+				}
+				w.Emit(J{"ev": "cli", "fam": "stdout", "cmd": "list-chunks - (index on stdin)", "k": ei, "exit": ex, "hung": false,
+					"complete": ierr == nil && string(outb) == lines, "valid_inputs": true, "out": ""})
+			}
+		case "catar":
+			f := filepath.Join(dir, "made.catar")
+			rf := run("tar", f, src)
+			want, err := os.ReadFile(f)
+			emit("tar - (archive on stdout, tree with a node that is skipped with a warning)", run("tar", "-", src), want, rf.exit == 0 && err == nil)
+			if err == nil {
+				g := filepath.Join(dir, "out.tar")
+				rg := run("untar", "--no-same-owner", "--output-format", "gnu-tar", f, g)
+				wantg, gerr := os.ReadFile(g)
+				emit("untar --output-format gnu-tar - (tar stream on stdout)", run("untar", "--no-same-owner", "--output-format", "gnu-tar", f, "-"), wantg, rg.exit == 0 && gerr == nil)
+			}
+		case "blob":
+			idx := chunkInto(store, blob)
+			f := filepath.Join(dir, "blob.caibx")
+			writeIndex(idx, f)
+			emit("cat (blob on stdout)", run("cat", "-s", store, f), blob, true)
+			emit("cat -o -l (range on stdout)", run("cat", "-s", store, "-o", "1000", "-l", "5000", f), slice(blob, 1000, 5000), true)
+		}
 	}
 }
 
@@ -1191,6 +1575,7 @@ func main() {
 	if has("fault") {
 		runFault(r, mkdir(filepath.Join(*dir, "fault")), *thorough)
 		runLocalFault(r, mkdir(filepath.Join(*dir, "localfault")))
+		runCorruptSource(r, mkdir(filepath.Join(*dir, "corruptsource")))
 		runS3Fault(r, mkdir(filepath.Join(*dir, "s3fault")), *thorough)
 	}
 	if has("server") {
@@ -1220,6 +1605,11 @@ func main() {
 	}
 	if has("tar") {
 		runTar(r, mkdir(filepath.Join(*dir, "tar")), 5*mult)
+	}
+	for _, what := range []string{"index", "catar", "blob"} {
+		if has("stdout-" + what) {
+			runStdout(r, mkdir(filepath.Join(*dir, "stdout-"+what)), what)
+		}
 	}
 	must(w.Close())
 	os.RemoveAll(*dir)
